@@ -13,6 +13,7 @@ mod model;
 mod pure_checks;
 mod ramdisk;
 mod report;
+mod sdchecks;
 mod util;
 
 use report::Report;
@@ -92,6 +93,9 @@ fn main() {
         "c10" => fschecks::c10(&ctx),
         "c11" => fschecks::c11(&ctx),
         "c16" => fschecks::c16(&ctx),
+        "c12" => sdchecks::c12(&ctx),
+        "c13" => sdchecks::c13(&ctx),
+        "c14" => sdchecks::c14(&ctx),
         other => {
             eprintln!("unknown check {other}");
             std::process::exit(2);
